@@ -124,6 +124,22 @@ theorem fact_alg_fits_key :
     "nutsJwx.AlgorithmFitsKey" ∈ Facts.C17.credentialAlgorithmFitsKeyCalls ∧ "cryptoPublicKey" ∈ Facts.C17.credentialAlgorithmFitsKeyCalls := by
   refine ⟨by rfl, by rfl, by decide, by decide⟩
 
+/-- **fits_is_the_algorithm_of_the_curve**: for a key on P-256 / P-384 / P-521 the helper says "fits" for exactly one algorithm,
+    the one RFC 7518 3.4 gives that curve (in particular a P-521 key does not fit ES256 or ES384); an Ed25519 key fits EdDSA
+    only, and only when it is 32 bytes long -/
+theorem fits_is_the_algorithm_of_the_curve (alg : String) :
+    (∀ c a, algOfCurve c = some a → (algorithmFitsKey alg (.ecdsa c) = true ↔ alg = a)) ∧
+    (algOfCurve "P-256" = some "ES256" ∧ algOfCurve "P-384" = some "ES384" ∧ algOfCurve "P-521" = some "ES512") ∧
+    (∀ n, algorithmFitsKey alg (.ed25519 n) = true ↔ alg = "EdDSA" ∧ n = 32) := by
+  refine ⟨?_, ⟨rfl, rfl, rfl⟩, ?_⟩
+  · intro c a h
+    simp [algorithmFitsKey, h]
+  · intro n
+    simp [algorithmFitsKey]
+
+example : algorithmFitsKey "ES256" (.ecdsa "P-521") = false ∧ algorithmFitsKey "ES512" (.ecdsa "P-521") = true ∧
+    algorithmFitsKey "ES512" (.ecdsa "P-256") = false ∧ algorithmFitsKey "EdDSA" (.ed25519 31) = false := by decide
+
 /-! ### The uniform statement -/
 
 /-- the discipline of an accepted token: exactly one signature `s`, exactly one verification `v`, of that signature,
